@@ -31,8 +31,10 @@ def z_of(p, dps=DPS):
         return mp.sqrt(2) * mp.erfinv(2 * p - 1)
 
 
-def ncdf(x):
-    return mp.ncdf(x)
+def z_two_sided(p, dps=DPS):
+    """z with Phi(z) - Phi(-z) = p, i.e. erf(z / sqrt 2) = p"""
+    with mp.workdps(dps):
+        return mp.sqrt(2) * mp.erfinv(mpf(p))
 
 
 # ------------------------------------------------------------------ non-central t
@@ -195,37 +197,61 @@ def _binary(q):
     return f.numerator, d.bit_length() - 1
 
 
-def tail_ge(n, r, p):
-    """exact P[Bin(n, 1-p) >= r] as a Fraction; p a float (binary rational).
+def tail_ge_scaled(n, r, p):
+    """exact P[Bin(n, 1-p) >= r] = N / 2**e for the float p; returns (N, e).
 
-    1 - sum_{j<r} C(n,j) (1-p)^j p^(n-j), all in integers over 2**(k n)."""
+    1 - sum_{j<r} C(n,j) (1-p)^j p^(n-j), all in integers over 2**(k n);
+    no gcd normalisation (that would dominate the cost for large n)."""
     n = int(n)
     r = int(r)
     if r <= 0:
-        return Fraction(1)
+        return 1, 0
     if r > n:
-        return Fraction(0)
+        return 0, 0
     a, k = _binary(p)              # p = a / 2^k
     b = (1 << k) - a               # 1-p = b / 2^k
-    if a == 0:
-        return Fraction(1)
-    # terms j = 0 .. r-1:  C(n,j) b^j a^(n-j);  recurrence on the ratio
-    # term_j = C(n,j) * b^j * a^(n-j).  Keep a^(n-r+1) common, build the rest.
-    m = n - (r - 1)                # smallest exponent of a among the terms
-    apow = pow(a, m)
-    # S = sum_j C(n,j) b^j a^(r-1-j),  j = 0..r-1  (Horner in a)
-    s = 0
+    if a <= 0:
+        return 1, 0
+    # term_j = C(n,j) b^j a^(n-j), j = 0..r-1;  a^(n-r+1) is common to all
+    coeffs = []
     cnj = 1
     bj = 1
-    coeffs = []
     for j in range(r):
         coeffs.append(cnj * bj)
         cnj = cnj * (n - j) // (j + 1)
         bj *= b
-    for j in range(r):             # Horner: highest power of a first (j = 0)
+    s = 0
+    for j in range(r):             # Horner in a: sum_j coeffs[j] a^(r-1-j)
         s = s * a + coeffs[j]
-    below = s * apow               # = 2^(k n) * P[X <= r-1]
-    return Fraction((1 << (k * n)) - below, 1 << (k * n))
+    below = s * pow(a, n - r + 1)  # = 2^(k n) * P[X <= r-1]
+    return (1 << (k * n)) - below, k * n
+
+
+def tail_ge(n, r, p):
+    """the same tail as a Fraction (small n only: normalising is expensive)"""
+    N, e = tail_ge_scaled(n, r, p)
+    return Fraction(N, 1 << e)
+
+
+def tail_minus(n, r, p, c, dps=30):
+    """exact comparison of P[Bin(n, 1-p) >= r] with the float c.
+
+    Returns (sign, within, diff): sign of tail - c (exact, -1/0/1); within(w)
+    tells exactly whether |tail - c| <= w for a Fraction w; diff is tail - c
+    rounded to an mpf."""
+    N, e = tail_ge_scaled(n, r, p)
+    ca, ck = _binary(c)
+    d = (N << ck) - (ca << e)      # (tail - c) * 2^(e + ck)
+    sh = e + ck
+    sign = (d > 0) - (d < 0)
+
+    def within(w):
+        w = Fraction(w)
+        return abs(d) * w.denominator <= (w.numerator << sh)
+
+    with mp.workdps(dps):
+        diff = mp.ldexp(mpf(d), -sh)
+    return sign, within, diff
 
 
 def tail_ge_mp(n, r, p, dps=40):
